@@ -62,3 +62,21 @@ fn utxo_contract() {
         if utxo != expect { witness(format!("on_chain_reorganization(spendable={}) delta wrong for amount {}", spend, s.amount)); }
     }
 }
+
+/// extraction validation of the assumed constructor contracts (external_body stubs in the units): the values the real
+/// `Default` / `new` constructors produce are the ones the contracts state
+#[test]
+fn constructor_stubs_state_the_real_defaults() {
+    let s = Slip::default();
+    if s.public_key != [0u8; 33] || s.amount != 0 || s.slip_index != 0 || s.block_id != 0 || s.tx_ordinal != 0 || s.slip_type != SlipType::Normal || s.utxoset_key != [0u8; 59] || s.is_utxoset_key_set {
+        witness("Slip::default() is not the all-zero Normal slip the unit stubs assume".to_string());
+    }
+    let t = crate::core::consensus::transaction::Transaction::default();
+    if !t.from.is_empty() || !t.to.is_empty() || !t.data.is_empty() || !t.path.is_empty() || t.total_fees != 0 || t.txs_replacements != 1 {
+        witness("Transaction::default() is not the empty transaction the unit stubs assume".to_string());
+    }
+    let b = crate::core::consensus::block::Block::new();
+    if !b.transactions.is_empty() || b.block_type != crate::core::consensus::block::BlockType::Full { witness("Block::new() is not the empty full block the unit stubs assume".to_string()); }
+    let w = crate::core::consensus::wallet::WalletSlip::new();
+    if w.amount != 0 || w.block_id != 0 || w.tx_ordinal != 0 || !w.lc || w.slip_index != 0 || w.spent || w.slip_type != SlipType::Normal { witness("WalletSlip::new() differs from the stub contract".to_string()); }
+}
